@@ -343,4 +343,135 @@ def run (P : Params) (fixed : Bool) : Sys → List Act → Option Sys
 /-- Number of live instances of `dn`. -/
 def liveCount (s : Sys) (dn : DN) : Nat := (s.live.filter fun i => i.dn = dn).length
 
+/-! ## The supervisor option `WithPropagatePanic`
+
+`supervisor.New(ctx, logger, root, opts...)`: the only option that exists sets `s.propagatePanic`
+(supervisor.go:81-93; `guardiand` passes it, node/cmd/guardiand/node.go).  The field is read in ONE place, the
+goroutine started by `processSchedule` (supervisor_processor.go:133-157):
+
+```go
+go func() {
+    if !s.propagatePanic {
+        defer func() { if rec := recover(); rec != nil { s.pReq <- died{dn, fmt.Errorf("panic: ...")} } }()
+    }
+    res := n.runnable(n.ctx)
+    s.pReq <- died{dn, res}
+}()
+```
+
+So the option only decides what happens to a PANIC that unwinds the runnable; a runnable that RETURNS sends the very
+same `died` request with the option on or off.  `step` above is the system with the option off (`Act.ret iid .other`
+stands for a panic as well as for an error return; a panic inside `Signal` / `RunGroup` becomes a `died … other`).
+`stepO` is the system under either setting, with the panic kept apart from the return and with the unrecovered
+panic as an explicit outcome: the Go runtime ends the whole process (never a default). -/
+
+/-- How the goroutine started by `processSchedule` comes out of `n.runnable(n.ctx)`. -/
+inductive Exit where
+  /-- the runnable returned this value (`nil`, a context error, any other error) -/
+  | returned (e : ErrKind)
+  /-- the runnable - or a supervisor call inside it (`Signal` in a wrong state, `nodeByDN`) - panicked -/
+  | panicked
+deriving DecidableEq, Hashable, Repr
+
+/-- What that goroutine does next. -/
+inductive Report where
+  /-- `s.pReq <- &processorRequest{died: &processorRequestDied{dn, err}}` -/
+  | died (e : ErrKind)
+  /-- nobody recovers the panic: the process ends -/
+  | crash
+deriving DecidableEq, Hashable, Repr
+
+/-- The body of the `processSchedule` goroutine after the runnable is over, `propagatePanic` being the supervisor's field. -/
+def reportOf (propagatePanic : Bool) : Exit → Report
+  | .returned e => .died e
+  | .panicked => if propagatePanic then .crash else .died .other
+
+/-- Outcome of one transition of the configured system. -/
+inductive Outcome where
+  | next (s : Sys)
+  /-- an unrecovered panic travelled up a goroutine: the process has ended (supervisor, services and all) -/
+  | crashed
+  /-- the action is not enabled in this state -/
+  | disabled
+deriving DecidableEq, Repr
+
+def Outcome.ofOption : Option Sys → Outcome
+  | some s => .next s
+  | none => .disabled
+
+/-- Actions of the configured system: those of `Act` — where `.ret iid e` now is a RETURN of the value `e` only — and
+a panic raised by the runnable's own code. -/
+inductive OAct where
+  | act (a : Act)
+  | panic (iid : Nat)
+deriving DecidableEq, Hashable, Repr
+
+/-- The same action in the option-off system `step`, where a panic is the death `other`. -/
+def OAct.toAct : OAct → Act
+  | .act a => a
+  | .panic iid => .ret iid .other
+
+/-- The runnable of instance `i` is over. -/
+def endInst (propagatePanic : Bool) (s : Sys) (i : Inst) (x : Exit) : Outcome :=
+  match reportOf propagatePanic x with
+  | .died e => .next { s with live := s.live.erase i, pend := s.pend ++ [.died i.dn e] }
+  | .crash => .crashed
+
+/-- One transition of the system whose supervisor was built with `propagatePanic`.  The processor's own steps
+(`sched`, `died`, `gc`, `kill`) never look at the option. -/
+def stepO (propagatePanic : Bool) (P : Params) (fixed : Bool) (s : Sys) : OAct → Outcome
+  | .act (.sig iid sg) =>
+    match s.live.find? (fun i => i.iid = iid) with
+    | none => .disabled
+    | some i =>
+      match signal P s.tree i.dn sg with
+      | .ok t => .next { s with tree := t }
+      | .error _ => endInst propagatePanic s i .panicked
+  | .act (.run iid names) =>
+    match s.live.find? (fun i => i.iid = iid) with
+    | none => .disabled
+    | some i =>
+      if ¬ names.Nodup then .disabled
+      else match runGroup P s.tree i.dn names s.nextInc with
+        | .ok (some t) => .next { s with tree := t, pend := s.pend ++ names.map (fun nm => Req.sched (i.dn ++ [nm])),
+                                         nextInc := s.nextInc + 1 }
+        | .ok none => .next s
+        | .error _ => endInst propagatePanic s i .panicked
+  | .act (.ret iid e) =>
+    match s.live.find? (fun i => i.iid = iid) with
+    | none => .disabled
+    | some i => endInst propagatePanic s i (.returned e)
+  | .panic iid =>
+    match s.live.find? (fun i => i.iid = iid) with
+    | none => .disabled
+    | some i => endInst propagatePanic s i .panicked
+  | .act a => Outcome.ofOption (step P fixed s a)
+
+/-- The action makes a runnable goroutine panic in state `s`: its own code panics, or the `Signal` / `RunGroup` call
+it makes does. -/
+def raises (P : Params) (s : Sys) : OAct → Bool
+  | .panic iid => (s.live.find? (fun i => i.iid = iid)).isSome
+  | .act (.sig iid sg) =>
+    match s.live.find? (fun i => i.iid = iid) with
+    | none => false
+    | some i => match signal P s.tree i.dn sg with | .ok _ => false | .error _ => true
+  | .act (.run iid names) =>
+    match s.live.find? (fun i => i.iid = iid) with
+    | none => false
+    | some i => decide names.Nodup && (match runGroup P s.tree i.dn names s.nextInc with | .ok _ => false | .error _ => true)
+  | .act _ => false
+
+def runO (propagatePanic : Bool) (P : Params) (fixed : Bool) : Sys → List OAct → Outcome
+  | s, [] => .next s
+  | s, a :: as => match stepO propagatePanic P fixed s a with
+    | .next s' => runO propagatePanic P fixed s' as
+    | o => o
+
+/-- No action of the sequence makes a runnable panic (evaluated along the option-off run). -/
+def panicFree (P : Params) (fixed : Bool) : Sys → List OAct → Bool
+  | _, [] => true
+  | s, a :: as => !raises P s a && (match step P fixed s a.toAct with
+    | some s' => panicFree P fixed s' as
+    | none => true)
+
 end Whv.Sup
